@@ -205,6 +205,12 @@ def parallel_edge(doc, k):
         return d, 0
     e = d["edges"][(k * 7 + 3) % len(d["edges"])]
     d["edges"].append(copy.deepcopy(e))
+    # ... and one state-order edge twice as well, when there is one
+    sigs = [refval.jsig(n) for n in doc["nodes"]]
+    for (s, so), (t, to) in doc["edges"]:
+        if so is not None and sigs[s]["other_out"] == "order" and so == refval.port_count(sigs[s], "out") - 1 and sigs[t]["other_in"] == "order" and to == refval.port_count(sigs[t], "in") - 1:
+            d["edges"].append([[s, so], [t, to]])
+            return d, 2
     return d, 1
 
 
